@@ -1,6 +1,8 @@
 """What is claimed, at which level, and what is not (source of MANIFEST.json)."""
 
 ENGINES = [
+    {"name": "codec", "path": "pyvc/codec.py", "serves_properties": ["C07", "C11"],
+     "kind_free_text": "relational mode of pyvc for writer/reader pairs: abstract token buffers, lock-step rule for collections of unknown length, modular nested objects"},
     {"name": "llvm2smt", "path": "llvm2smt/", "serves_properties": ["C15"],
      "kind_free_text": "clang -O1 -emit-llvm of the real lib-rt sources, parsed and translated path by path to SMT (bit-vector or integer encoding) with UB obligations"},
     {"name": "frames", "path": "frames/", "serves_properties": ["C08", "C09", "C10"],
@@ -60,6 +62,17 @@ CLAIMED["C20"] = dict(
     level_note="'For every text file' over the whole pipeline is not decidable with function contracts: only the listed kernels are covered; the checker, semantic analyzer, daemon update path and termination of deferral loops are NOT decided. AssertionError is allowed for Errors.report (caller obligations on parent_error). Resource exhaustion is modelled as an exit when a folded result would exceed 10**7 bits/elements. Trusted: z3/cvc5, engine encoding of Python, the exception contract of ast.parse.",
     technique="contract-based deductive verification: exceptional postconditions generated from the real AST, SMT discharge (z3, cvc5)")
 
+CLAIMED["C11"] = dict(
+    engine="codec", category="proof", design_ref="DESIGN.md section 5 C11",
+    text="For every class under contract the real read() applied to the token sequence the real write() produces returns an object that agrees with the written one on the pinned view (every slot is in the view or in a pinned transient list), consumes exactly the writer's tokens and accepts them without a failing assert -- for all field values and all collection lengths (lock-step rule, inductive). Classes: CacheMeta, CacheMetaEx, ErrorInfo, 21 Type classes of types.py (all with a write/read pair except TypeType), 10 node classes of nodes.py, write_flags/read_flags for every flag count in use; plus, computed on the source: tag constants pairwise distinct, read_type / read_symbol / read_function_like / read_overload_part send tag(C) to C.read, and the binary and JSON formats mention the same fields per class.",
+    level_note="Trusted: the prefix-code law of the librt.internal primitives (C code not verified), z3. Nested serializable objects are modular (object tokens), so cross-reference FIXUP (fixup.py, lookup) is NOT decided. NOT under contract (listed as unverified in the evidence): TypeInfo, MypyFile, SymbolTable, SymbolTableNode, FileRawData, TypeType (re-normalizes on read). The JSON serialize/deserialize pairs are only compared syntactically with the binary pairs (same fields), not executed. Transient slots of nodes.py classes are derived mechanically (mentioned by neither format) and not individually justified; those of types.py are pinned with a reason each. Class invariants used as preconditions are listed per class in contracts/views_*.py.",
+    technique="contract-based deductive verification: relational symbolic execution of the real write/read pairs with the lock-step (inductive) rule for collections; SMT discharge (z3)")
+CLAIMED["C07"] = dict(
+    engine="codec", category="proof", design_ref="DESIGN.md section 5 C07",
+    text="What each process does with the messages it exchanges, for all message contents: reader . writer = identity on everything transferred for ErrorInfo, AckMessage, SccRequestMessage, SccResponseMessage, ModuleResult, SourcesDataMessage, SccsDataMessage and for State.write/State.read (every field write() mentions arrives unchanged; erased fields are listed).",
+    level_note="Only the message codecs are decided. NOT decided: equality of diagnostics across schedules (concurrency), the scheduler's ready/not-ready invariant, commit-before-reply in the worker, GraphMessage (not attempted). Framing of the messages on the socket is C16. Trusted: librt.internal primitives, z3.",
+    technique="contract-based deductive verification: relational symbolic execution of the real write/read pairs (lock-step rule); SMT discharge (z3)")
+
 NOT_APPLICABLE = {
     "C01": "soundness of the whole checker against CPython's dynamic semantics: no per-function contract expresses it (DESIGN.md 5 C01)",
     "C05": "compiler correctness of mypyc end to end: a simulation proof, not a function contract (DESIGN.md 5 C05); the numeric leaf is C15",
@@ -69,8 +82,6 @@ NOT_APPLICABLE = {
     "C03": "not yet built in this round",
     "C04": "not yet built in this round",
     "C06": "not yet built in this round (bounded stand-in planned)",
-    "C07": "not yet built in this round",
     "C10": "not yet built in this round",
-    "C11": "not yet built in this round",
     "C18": "not yet built in this round",
 }
